@@ -232,6 +232,7 @@ impl Prop for C03 {
         ]
     }
     fn run(&self, ctx: &Ctx) {
+        ctx.journal_bytes.set(true);
         let cases = ctx.tier.pick(320u32, 8_000u32);
         ctx.run_bytes("program", cases, 1536, case);
     }
